@@ -60,10 +60,10 @@ def alnum(cp):
     return 0x30 <= cp <= 0x39 or 0x41 <= cp <= 0x5A or 0x61 <= cp <= 0x7A
 
 
-def build(prog, g, root="version"):
+def build(prog, g, root="version", extra_chars="vV.-+"):
     """alphabet, PEG denotation of `root`, reference languages"""
     preds = OrderedDict()
-    for ch in sorted(literals_in(g, root) | set("vV.-+")):
+    for ch in sorted(literals_in(g, root) | set(extra_chars)):
         preds[("lit", ch)] = (lambda cp, ch=ch: cp == ord(ch))
     preds["digit"] = lambda cp: 0x30 <= cp <= 0x39
     preds["space"] = lambda cp: cp in (0x20, 0x09)
